@@ -270,8 +270,14 @@ class EnumGen:
             out.append('    #[doc = %s]' % rust_str(dline))
         for a in self.e.extra.get('variant_attrs', {}).get(v.ident, []):
             out.append('    ' + a)
+        if items and v.attr_layout in ('rev', 'revsplit'):
+            # reverse the order of the single-use items (the relative order of the serialize literals is observable
+            # and therefore kept)
+            sers = [i for i in items if i.startswith('serialize')]
+            rest = [i for i in items if not i.startswith('serialize')]
+            items = list(reversed(rest)) + sers
         if items:
-            if v.attr_layout == 'split':
+            if v.attr_layout in ('split', 'revsplit'):
                 for it in items:
                     out.append('    #[strum(%s)]' % it)
             else:
